@@ -397,6 +397,40 @@ def _roundtrip(data):
     return ev
 
 
+
+
+class _CachedRes(object):
+    """stand-in for a TLCResult restored from VERIF_CASE_CACHE (mutation runs re-use the repo-independent TLC output)"""
+
+    def __init__(self, d):
+        self.d = d
+        self.distinct = d["distinct_states"]
+        self.generated = d["states_generated"]
+
+    def summary(self):
+        return dict(self.d, cached=True)
+
+
+def cached_tlc(ctx, name, label, consts, producer):
+    """producer() -> (TLCResult, cases).  With VERIF_CASE_CACHE=<dir> the (repo-independent) result is stored / re-used."""
+    import json
+
+    d = os.environ.get("VERIF_CASE_CACHE")
+    path = os.path.join(d, "%s_%s_%d.json" % (name, ctx.tier, ctx.seed)) if d else None
+    if path and os.path.exists(path):
+        with open(path) as f:
+            blob = json.load(f)
+        ctx.add_tlc(_CachedRes(blob["summary"]), label, consts)
+        return blob["cases"]
+    res, cases = producer()
+    ctx.add_tlc(res, label, consts)
+    if path:
+        with open(path + ".tmp", "w") as f:
+            json.dump({"summary": res.summary(), "cases": cases}, f)
+        os.replace(path + ".tmp", path)
+    return cases
+
+
 # ------------------------------------------------------------------------------------------------
 def load_histories(path):
     out = []
@@ -429,7 +463,7 @@ def library_stream(seed):
     rnd = random.Random(seed)
     hq = rnd.random() < 0.5
     sx, sy = rnd.choice([(1, 1), (2, 1), (2, 2)])
-    w_, h_ = rnd.choice([(2, 2), (4, 2), (4, 4)])
+    w_, h_ = rnd.choice([(4, 4), (8, 4), (4, 8)])
     depth = rnd.choice([0, 1])
     n = sx * sy
 
@@ -462,12 +496,15 @@ def library_stream(seed):
             slices.append(s)
         td = fd.TransformData(hq_slices=slices)
     else:
-        tp["slice_parameters"]["slice_bytes_numerator"] = rnd.choice([12, 25, 31]) * n
-        tp["slice_parameters"]["slice_bytes_denominator"] = n
+        per = 0
         for _ in range(n):
             y = coeffs(luma_per_slice)
-            s = fd.LDSlice(qindex=rnd.randrange(20), y_transform=y, c_transform=coeffs(2 * luma_per_slice), slice_y_length=len(sint_bits(y)) + rnd.choice([0, 0, 3]))
+            c = coeffs(2 * luma_per_slice)
+            s = fd.LDSlice(qindex=rnd.randrange(20), y_transform=y, c_transform=c, slice_y_length=len(sint_bits(y)) + rnd.choice([0, 0, 3]))
+            per = max(per, (7 + 12 + s["slice_y_length"] + len(sint_bits(c)) + 7) // 8 + rnd.choice([0, 2]))
             slices.append(s)
+        tp["slice_parameters"]["slice_bytes_numerator"] = per * n
+        tp["slice_parameters"]["slice_bytes_denominator"] = n
         td = fd.TransformData(ld_slices=slices)
     pic = fd.DataUnit(
         parse_info=fd.ParseInfo(parse_code=0xE8 if hq else 0xC8),
@@ -563,17 +600,24 @@ def selftest(hists):
 
 
 def run(ctx):
-    res = tlc.run("Deser", "mc/Deser.cfg", dump=True, timeout=1200)
-    ctx.add_tlc(res, "exhaustive", {"MaxLen": 5})
-    hists = load_histories(res.dump_path)
+    def produce():
+        res = tlc.run("Deser", "mc/Deser.cfg", dump=True, timeout=1200)
+        return res, load_histories(res.dump_path)
+
+    hists = cached_tlc(ctx, "c06_exhaustive", "exhaustive", {"MaxLen": 5}, produce)
     if not ctx.quick:
         import glob
 
-        sim = tlc.run("Deser", open(os.path.join(tlc.SPEC, "mc/Deser.cfg")).read().replace("MaxLen = 5", "MaxLen = 14"), simulate=3000, depth=16, seed=ctx.seed, workers=1, timeout=1200)
-        for p in sorted(glob.glob(os.path.join(sim.sim_dir, "tr*"))):
-            sts = list(tlaval.iter_dump(p))
-            if sts and sts[-1]["hist"]:
-                hists.append(tlaval.to_jsonable(sts[-1]["hist"]))
+        def produce_sim():
+            sim = tlc.run("Deser", open(os.path.join(tlc.SPEC, "mc/Deser.cfg")).read().replace("MaxLen = 5", "MaxLen = 14"), simulate=3000, depth=16, seed=ctx.seed, workers=1, timeout=1200)
+            out = []
+            for p in sorted(glob.glob(os.path.join(sim.sim_dir, "tr*"))):
+                sts = list(tlaval.iter_dump(p))
+                if sts and sts[-1]["hist"]:
+                    out.append(tlaval.to_jsonable(sts[-1]["hist"]))
+            return sim, out
+
+        hists = hists + cached_tlc(ctx, "c06_simulate", "random walks", {"MaxLen": 14, "simulate": 3000, "depth": 16}, produce_sim)
     reps = ctx.pick(3, 12)
     jobs = []
     for h in hists:
